@@ -1,8 +1,4 @@
 // ===== shim/poly.rs : ASSUMED contracts of ark-poly DensePolynomial (trusted) =====
-// sum_{i<n} c[i] * x^i
-pub open spec fn peval(c: Seq<FS>, x: FS, n: nat) -> FS decreases n {
-    if n == 0 { f_zero() } else { f_add(peval(c, x, (n - 1) as nat), f_mul(c[n - 1], f_pow(x, (n - 1) as nat))) }
-}
 pub struct Poly { pub coeffs: Vec<Fr> }
 impl Poly {
     pub open spec fn cv(&self) -> Seq<FS> { fviews(self.coeffs@) }
